@@ -281,4 +281,213 @@ theorem inlineCompletion_rangeOK (doc : Txt) (c : Cur) (n : Nat)
       have : (0 : UInt32).toNat = 0 := rfl
       simp [this, hl, charsOfUnits, charsOf]
 
+/-! ## Forced guards on "covers exactly that text": counterexamples
+
+    The trees below are what the real parser produces for the quoted texts (the same documents
+    are replayed against the real server from replays/C08/). -/
+
+/-- `    a:b ;c`: the account token's End lies after the single blank; the range sent for the
+    account covers "a:b ". -/
+theorem account_trailing_blank_counterexample :
+    let doc := "2024-01-15 x\n    a:b ;c\n".toList
+    let r : Rng := ⟨⟨2, 5, 17⟩, ⟨2, 9, 21⟩⟩
+    rngSound one doc r = true ∧ covers doc (toN (astRangeToProtocol r)) "a:b".toList = false ∧
+    slice doc (toN (astRangeToProtocol r)) = some "a:b ".toList := by decide
+
+/-- `1 USD ; c`: `Amount.Range` ends at the comment token. -/
+theorem amount_trailing_blank_counterexample :
+    let doc := "2024-01-15 x\n    a:b  1 USD ; c\n".toList
+    let r : Rng := ⟨⟨2, 10, 22⟩, ⟨2, 16, 28⟩⟩
+    rngSound one doc r = true ∧ slice doc (toN (astRangeToProtocol r)) = some "1 USD ".toList := by decide
+
+/-- `2024-01-15 (c1) Shop`: `estimatePayeeRange` places the payee one blank after the date; the
+    range sent for the payee "Shop" covers the code. -/
+theorem payee_estimate_counterexample :
+    let doc := "2024-01-15 (c1) Shop\n".toList
+    let tx : Transaction := ⟨⟨2024, 1, 15, ⟨⟨1, 1, 0⟩, ⟨1, 11, 10⟩⟩⟩, none, .none, [99, 49], [83, 104, 111, 112],
+      [], [], [], [], [], ⟨⟨1, 1, 0⟩, ⟨2, 1, 21⟩⟩⟩
+    let r := estimatePayeeRange tx (payeeOf tx)
+    rangeOK doc (toN (astRangeToProtocol r)) = true ∧
+    covers doc (toN (astRangeToProtocol r)) "Shop".toList = false ∧
+    slice doc (toN (astRangeToProtocol r)) = some "(c1)".toList := by decide
+
+/-- … and it is exact on the canonical header `date payee` (non-vacuity of the payee guard). -/
+example :
+    let doc := "2024-01-15 Shop\n".toList
+    let tx : Transaction := ⟨⟨2024, 1, 15, ⟨⟨1, 1, 0⟩, ⟨1, 11, 10⟩⟩⟩, none, .none, [], [83, 104, 111, 112],
+      [], [], [], [], [], ⟨⟨1, 1, 0⟩, ⟨2, 1, 16⟩⟩⟩
+    let h : Hit := ⟨.payee, payeeOf tx, estimatePayeeRange tx (payeeOf tx)⟩
+    hitGuard false doc h = true ∧ lexSound u16w doc h.rng "Shop".toList = true := by decide
+
+/-- `; café, k:v`: parseTags adds the BYTE offset of `k` in the comment text (8) to the rune
+    column of the `;`; the tag's name range is sent one column to the right and covers ":". -/
+theorem tag_byte_offsets_counterexample :
+    let doc := "2024-01-15 x ; café, k:v\n".toList
+    let t : Tag := ⟨[107], [118], ⟨⟨1, 23, 22⟩, ⟨1, 26, 25⟩⟩⟩
+    slice doc (toN (astRangeToProtocol (tagNameRng t))) = some ":".toList ∧
+    covers doc (toN (astRangeToProtocol (tagNameRng t))) "k".toList = false := by decide
+
+/-- `k: v`: the value range starts right after the colon. -/
+theorem tag_value_leading_blank_counterexample :
+    let doc := "2024-01-15 x ; k: v\n".toList
+    let t : Tag := ⟨[107], [118], ⟨⟨1, 16, 15⟩, ⟨1, 20, 19⟩⟩⟩
+    slice doc (toN (astRangeToProtocol (tagValueRng t))) = some " v".toList := by decide
+
+/-- Document link as pinned: the range of `include other.journal` starts at the keyword. -/
+theorem link_covers_keyword_counterexample :
+    let doc := "include other.journal\n".toList
+    let j : Journal := ⟨[], [], [], [⟨"other.journal".toUTF8.toList, ⟨⟨1, 1, 0⟩, ⟨1, 22, 21⟩⟩⟩]⟩
+    (documentLinks Fixes.pinned doc j).map (fun x => slice doc (toN x)) = [some "include other.journal".toList] := by
+  decide
+
+/-- Completion as pinned: on `account a:b` with the cursor at 0:0 the edit range is 0:8–0:0;
+    on `    a:b  1    USD` with the cursor at character 11 it is 0:14–0:11 (start after end). -/
+theorem completion_start_after_cursor_counterexample :
+    (textEditRange Fixes.pinned "account a:b".toList ⟨0, 0⟩ 1).map toN = some ⟨0, 8, 0, 0⟩ ∧
+    (textEditRange Fixes.pinned "    a:b  1    USD".toList ⟨0, 11⟩ 3).map toN = some ⟨0, 14, 0, 11⟩ ∧
+    rangeOK "account a:b".toList ⟨0, 8, 0, 0⟩ = false := by decide
+
+/-! ## Laminar families: outline symbols and fold regions -/
+
+/-- Outline symbols of different entries never partially overlap (they are pairwise disjoint as
+    half-open ranges) whenever the entries' ranges in the tree are: the conversion is monotone.
+    No text hypothesis at all — non-BMP runes shift ranges but never reorder them. -/
+theorem symbols_laminar_partial (j : Journal)
+    (hs : ∀ r ∈ symbolRanges j, rngSmall r = true ∧ rngPos r = true)
+    (hd : allPairs astDisjoint (symbolRanges j) = true) :
+    laminarSymbols ((documentSymbols j).map toN) = true := by
+  rw [documentSymbols_eq, List.map_map]
+  apply allPairs_map _ _ _ hd
+  intro a ha b hb h
+  exact symRel_conv (hs a ha).1 (hs b hb).1 (hs a ha).2 (hs b hb).2 h
+
+def foldN (f : Fold) : Nat × Nat := (f.s.toNat, f.e.toNat)
+
+/-- Lines strictly apart: some line that belongs to neither lies between the two ranges' line
+    spans (what a blank line between two transactions gives, as pinned: the fold of the first
+    ends ON the blank line). -/
+def linesApart (a b : Transaction) : Bool :=
+  decide (a.range.stop.line < b.range.start.line) || decide (b.range.stop.line < a.range.start.line)
+
+theorem m1_lt_of {a b : Nat} (ha : 1 ≤ a) (hb : b < 4294967296) (h : a < b) :
+    (m1 a).toNat < (m1 b).toNat := by
+  rw [m1_toNat ha (by omega), m1_toNat (by omega) hb]; omega
+
+theorem u32_pred_toNat {e s : UInt32} (h : e > s) : (e - 1).toNat = e.toNat - 1 := by
+  have h' : s.toNat < e.toNat := UInt32.lt_iff_toNat_lt.mp h
+  have : (1 : UInt32) ≤ e := by
+    rw [UInt32.le_iff_toNat_le]; simp; omega
+  rw [UInt32.toNat_sub_of_le _ _ this]; rfl
+
+/-- What the fold of one transaction is, in natural numbers. -/
+theorem txFold_spec {fx : Fixes} {t : Transaction} {f : Fold} (st : rngSmall t.range = true)
+    (pt : rngPos t.range = true) (hf : txFold fx t = some f) :
+    f.s.toNat = t.range.start.line - 1 ∧ f.s.toNat < f.e.toNat ∧ f.e.toNat ≤ t.range.stop.line - 1 ∧
+    (fx.fold = false → f.e.toNat = t.range.stop.line - 1) ∧
+    (fx.fold = true → t.range.stop.col = 1 → f.e.toNat = t.range.stop.line - 2) := by
+  simp only [rngSmall, rngPos, Bool.and_eq_true, decide_eq_true_eq] at st pt
+  have e1 := m1_toNat pt.1.1.1 st.1.1.1
+  have e2 := m1_toNat pt.1.2 st.1.2
+  unfold txFold at hf
+  by_cases hp : t.postings.isEmpty = true
+  · simp [hp] at hf
+  · simp only [hp, Bool.false_eq_true, if_false] at hf
+    cases hc : (fx.fold && t.range.stop.col == 1 && decide (m1 t.range.stop.line > m1 t.range.start.line)) with
+    | true =>
+      simp only [hc, if_true] at hf
+      simp only [Bool.and_eq_true, decide_eq_true_eq, beq_iff_eq] at hc
+      have hpred := u32_pred_toNat hc.2
+      by_cases hgt : m1 t.range.stop.line - 1 > m1 t.range.start.line
+      · simp only [hgt, if_true, Option.some.injEq] at hf
+        subst hf
+        have hlt := UInt32.lt_iff_toNat_lt.mp hgt
+        simp only
+        rw [hpred] at hlt ⊢
+        rw [e1] at hlt ⊢
+        rw [e2] at hlt ⊢
+        refine ⟨rfl, by omega, by omega, ?_, fun _ _ => by omega⟩
+        intro h0; rw [h0] at hc; simp at hc
+      · simp [hgt] at hf
+    | false =>
+      simp only [hc, Bool.false_eq_true, if_false] at hf
+      by_cases hgt : m1 t.range.stop.line > m1 t.range.start.line
+      · simp only [hgt, if_true, Option.some.injEq] at hf
+        subst hf
+        have hlt := UInt32.lt_iff_toNat_lt.mp hgt
+        rw [e1, e2] at hlt
+        simp only
+        refine ⟨e1, by rw [e1, e2]; omega, by rw [e2]; omega, fun _ => e2, ?_⟩
+        intro h1 h2
+        exfalso
+        simp [h1, h2, hgt] at hc
+      · simp [hgt] at hf
+
+/-- Transaction folds, code as pinned: laminar when the transactions' line spans (up to and
+    including the line of the following token) are strictly apart. -/
+theorem txFolds_laminar_partial (fx : Fixes) (hfx : fx.fold = false) (j : Journal)
+    (hs : ∀ tx ∈ j.transactions, rngSmall tx.range = true ∧ rngPos tx.range = true)
+    (hd : allPairs linesApart j.transactions = true) :
+    laminarFolds ((transactionFolds fx j).map foldN) = true := by
+  unfold transactionFolds
+  rw [List.map_filterMap]
+  apply allPairs_filterMap _ _ _ hd
+  intro a ha b hb h x hx y hy
+  simp only [Option.map_eq_some_iff] at hx hy
+  obtain ⟨fa, hfa, rfl⟩ := hx
+  obtain ⟨fb, hfb, rfl⟩ := hy
+  obtain ⟨a1, a2, _, a4, _⟩ := txFold_spec (hs a ha).1 (hs a ha).2 hfa
+  obtain ⟨b1, b2, _, b4, _⟩ := txFold_spec (hs b hb).1 (hs b hb).2 hfb
+  have a4 := a4 hfx
+  have b4 := b4 hfx
+  simp only [linesApart, Bool.or_eq_true, decide_eq_true_eq] at h
+  simp only [foldN]
+  simp only [foldRel, Bool.or_eq_true, Bool.and_eq_true, decide_eq_true_eq]
+  omega
+
+/-- Forced guard: two adjacent transactions without a blank line — the first fold ends on the
+    line on which the second starts (regions 0–3 and 3–6). -/
+theorem txFolds_adjacent_counterexample :
+    let p : Posting := ⟨.none, ⟨[97, 58, 98], Rng.zero⟩, none, none, none, [], [], .none, Rng.zero⟩
+    let d : Date := ⟨2024, 1, 15, Rng.zero⟩
+    let t1 : Transaction := ⟨d, none, .none, [], [97], [], [], [p], [], [], ⟨⟨1, 1, 0⟩, ⟨4, 1, 36⟩⟩⟩
+    let t2 : Transaction := ⟨d, none, .none, [], [98], [], [], [p], [], [], ⟨⟨4, 1, 36⟩, ⟨7, 1, 72⟩⟩⟩
+    let j : Journal := ⟨[t1, t2], [], [], []⟩
+    allPairs astDisjoint (symbolRanges j) = true ∧
+    (transactionFolds Fixes.pinned j).map foldN = [(0, 3), (3, 6)] ∧
+    laminarFolds ((transactionFolds Fixes.pinned j).map foldN) = false ∧
+    (transactionFolds Fixes.all j).map foldN = [(0, 2), (3, 5)] ∧
+    laminarFolds ((transactionFolds Fixes.all j).map foldN) = true := by decide
+
+/-- Entries that start on a line of their own and do not overlap as half-open ranges. -/
+def entriesApart (a b : Transaction) : Bool :=
+  (posLe a.range.stop b.range.start && a.range.stop.col == 1) ||
+  (posLe b.range.stop a.range.start && b.range.stop.col == 1)
+
+/-- Transaction folds with repo_patches/fix-fold-ranges.diff: laminar for every journal whose
+    transactions do not overlap and are followed by a token that starts a line — adjacent
+    transactions need no blank line any more. -/
+theorem txFolds_laminar (fx : Fixes) (hfx : fx.fold = true) (j : Journal)
+    (hs : ∀ tx ∈ j.transactions, rngSmall tx.range = true ∧ rngPos tx.range = true)
+    (hd : allPairs entriesApart j.transactions = true) :
+    laminarFolds ((transactionFolds fx j).map foldN) = true := by
+  unfold transactionFolds
+  rw [List.map_filterMap]
+  apply allPairs_filterMap _ _ _ hd
+  intro a ha b hb h x hx y hy
+  simp only [Option.map_eq_some_iff] at hx hy
+  obtain ⟨fa, hfa, rfl⟩ := hx
+  obtain ⟨fb, hfb, rfl⟩ := hy
+  obtain ⟨a1, a2, a3, _, a5⟩ := txFold_spec (hs a ha).1 (hs a ha).2 hfa
+  obtain ⟨b1, b2, b3, _, b5⟩ := txFold_spec (hs b hb).1 (hs b hb).2 hfb
+  have a5 := a5 hfx
+  have b5 := b5 hfx
+  simp only [entriesApart, posLe, Bool.or_eq_true, Bool.and_eq_true, decide_eq_true_eq, beq_iff_eq] at h
+  simp only [foldN]
+  simp only [foldRel, Bool.or_eq_true, Bool.and_eq_true, decide_eq_true_eq]
+  rcases h with ⟨h, hc⟩ | ⟨h, hc⟩
+  · have := a5 hc
+    omega
+  · have := b5 hc
+    omega
+
 end HL.Props.C08
